@@ -84,6 +84,10 @@ func (l *genericFileSessionLoader) Store(s *Session) error {
 	file.writeSession(s)
 	data, _ := json.Marshal(file)
 
+	// the cache is keyed on the modification time only: a write that lands on the same
+	// timestamp tick as the cached read would otherwise keep serving the old session
+	l.cached = nil
+
 	return ioutil.WriteFile(l.path, data, 0600)
 }
 
